@@ -145,6 +145,11 @@ func c13History(c *vc.Ctx, idx int) {
 		c.Violation("begin/end-of-block logic failed: "+errClass(cr.Err.Error()), cr.Error(), h.replay())
 	}
 	for b := 0; b < cfg.Blocks && !h.failed; b++ {
+		if cfg.HugeWeights && b == 5 && len(h.vals) > 1 && h.post != nil {
+			// directed: validator 1 misses enough blocks to be jailed early on; once the jail is over the workload offers it a
+			// lock far over the power bound (lockhist: huge_locks_for_validators_whose_jail_is_over)
+			h.absentRun[1] = int(h.post.Locking.Params.MaxMissedPerWindow) + 1
+		}
 		if !h.step() {
 			return
 		}
